@@ -16,7 +16,7 @@ func init() {
 	register(&Check{
 		ID:  "C09",
 		Run: runC09,
-		Explanation: "Decides that the configured limits are consulted wherever input-controlled data is materialised: (R1 plumbing) the limit-less decoders StreamDict.Decode / DecodeLength take their limit from the stream's own DecodeLimit (falling back to the package default only when it is zero); every types.NewStreamDict in the reader (pkg/pdfcpu) is followed on every success path by DecodeLimit = decodeLimit(ctx); every explicit DecodeWithLimit / DecodeLengthWithLimit call passes a value derived from the configuration (decodeLimit(ctx), limits.MaxDecodeBytes, osd.MaxDecodeBytes, sd.decodeLimit()); filter.NewFilter is called with an explicit limit wherever a stream is decoded; (R2 filters) every implementor of filter.Filter (enumerated through go/types) reaches baseFilter.copyDecoded or consults decodeLimit in its DecodeLength; inside copyDecoded the unbounded io.Copy branches are reachable only for limit < 0 or == maxInt64; in every decoder that writes its output inside a loop after asking decodeLimit (run-length, predictor post-processing) each write is preceded, within the same innermost loop iteration, by a comparison involving the limit — a check hoisted out of the inner loop is rejected; (R3 encoded size) loadEncodedStreamContent reads through readStreamContent(…, streamLimit(ctx)); (R4 liveness + accumulation) every field of model.ResourceLimits is read by a comparison in non-configuration code, and every limit comparison that sits in a loop which appends/allocates per iteration and subtracts or adds a running total uses a loop-carried accumulator that is actually updated in the loop (a running total that is never incremented makes the limit per-item instead of global). NOT decided: exactness at the boundary (C16), peak memory within a constant factor (a runtime quantity).",
+		Explanation: "Decides that the configured limits are consulted wherever input-controlled data is materialised: (R1 plumbing) the limit-less decoders StreamDict.Decode / DecodeLength take their limit from the stream's own DecodeLimit (falling back to the package default only when it is zero); every types.NewStreamDict in the reader (pkg/pdfcpu) is followed on every success path by DecodeLimit = decodeLimit(ctx); StreamDict.Clone copies the whole struct (or DecodeLimit explicitly), so a stream migrated into another context keeps its limit; every explicit DecodeWithLimit / DecodeLengthWithLimit call passes a value derived from the configuration (decodeLimit(ctx), limits.MaxDecodeBytes, osd.MaxDecodeBytes, sd.decodeLimit()); filter.NewFilter is called with an explicit limit wherever a stream is decoded; (R2 filters) every implementor of filter.Filter (enumerated through go/types) reaches baseFilter.copyDecoded or consults decodeLimit in its DecodeLength; inside copyDecoded the unbounded io.Copy branches are reachable only for limit < 0 or == maxInt64; in every decoder that writes its output inside a loop after asking decodeLimit (run-length, predictor post-processing) each write is preceded, within the same innermost loop iteration, by a comparison involving the limit — a check hoisted out of the inner loop is rejected; (R3 encoded size) loadEncodedStreamContent reads through readStreamContent(…, streamLimit(ctx)); in readStreamContentBlindly every growth step of the buffer is clamped by the limit (first step) or by what is left of it (min / compare-and-assign against limit − len), so the end marker arriving in the last step cannot carry the result past MaxStreamBytes; (R4 liveness + accumulation) every field of model.ResourceLimits is read by a comparison in non-configuration code, and every limit comparison that sits in a loop which appends/allocates per iteration and subtracts or adds a running total uses a loop-carried accumulator that is actually updated in the loop (a running total that is never incremented makes the limit per-item instead of global). NOT decided: exactness at the boundary (C16), peak memory within a constant factor (a runtime quantity).",
 		Rules: []string{
 			"C09.R1 flow: decode limits derive from the configuration at every decode site",
 			"C09.R2 siblings: every filter bounds its output; per-iteration limit checks in producing loops",
